@@ -368,9 +368,12 @@ C08_Pinned(X) ==
   KeyAxisStep(X) =>
     LET d == DirOf(WorkPos(X.c, X.pre, X.in.a, X.in.raw))
         centre == RInCentre(WorkPos(X.c, X.pre, X.in.a, X.in.raw))
-    IN \A i \in NoteOffs(X.o) :
-         \E dd \in {"pos", "neg"} : /\ <<X.in.a, dd>> \in DOMAIN X.apair0 /\ X.apair0[<<X.in.a, dd>>] = PairOf(X.o[i])
-                                    /\ (centre \/ (d # "none" /\ d # dd))
+    IN /\ \A i \in NoteOffs(X.o) :
+            \E dd \in {"pos", "neg"} : /\ <<X.in.a, dd>> \in DOMAIN X.apair0 /\ X.apair0[<<X.in.a, dd>>] = PairOf(X.o[i])
+                                       /\ (centre \/ (d # "none" /\ d # dd))
+       \* one Note On per deflection: while a direction's note is on (whatever transposition, channel or mapping
+       \* did meanwhile) further reports in that direction start nothing - otherwise no Note Off could match "the" Note On
+       /\ ((d # "none" /\ <<X.in.a, d>> \in DOMAIN X.apair0) => NoteOns(X.o) = {})
 
 -----------------------------------------------------------------------------
 (* C13  Panic                                                               *)
